@@ -54,6 +54,28 @@ class _Buf(io.StringIO):
         pass
 
 
+class _Chunks(list):
+    """a chunk collector: a legal destination (it has write) that is falsy as long as nothing was written"""
+    write = list.append
+
+    def getvalue(self):
+        return ''.join(self)
+
+
+class _WriteOnly:
+    """the least a destination can be: an object with write() and nothing else"""
+
+    def __init__(self):
+        self._parts = []
+
+    def write(self, text):
+        self._parts.append(text)
+        return len(text)
+
+    def getvalue(self):
+        return ''.join(self._parts)
+
+
 def _tmpdir():
     os.makedirs(TMPBASE, exist_ok=True)
     return tempfile.mkdtemp(prefix="c06-", dir=TMPBASE)
@@ -279,6 +301,24 @@ def _encode(F, via, header_on, varnames_on, path=None):
         buf = _Buf()
         to_dimacs_file(F, buf, export_header=header_on, export_varnames=varnames_on)
         text = buf.getvalue()
+    elif via in ('sink-falsy', 'sink-writeonly'):
+        buf = _Chunks() if via == 'sink-falsy' else _WriteOnly()
+        old = sys.stdout
+        leak = _Buf()
+        sys.stdout = leak
+        try:
+            F.to_file(buf, fileformat='dimacs', export_header=header_on, export_varnames=varnames_on)
+        finally:
+            sys.stdout = old
+        if leak.getvalue():
+            raise Violation("the formula was written to a user-defined destination ({}) but {} characters went to the standard output".format(
+                type(buf).__name__, len(leak.getvalue())))
+        text = buf.getvalue()
+    elif via == 'handle':
+        with open(path, 'w', encoding='utf-8', newline='') as fh:
+            F.to_file(fh, fileformat='dimacs', export_header=header_on, export_varnames=varnames_on)
+        with open(path, encoding='utf-8', newline='') as f:
+            text = f.read()
     elif via == 'stdout':
         old = sys.stdout
         buf = _Buf()
@@ -312,7 +352,7 @@ def run_writer(case):
     tmp = None
     path = None
     try:
-        if via == 'file':
+        if via in ('file', 'handle'):
             tmp = _tmpdir()
             path = os.path.join(tmp, case.get('fname') or 'formula.cnf')
         text, header_on, varnames_on = _encode(F, via, header_on, varnames_on, path)
@@ -401,7 +441,7 @@ def _run_writer_cli(case, labels):
 
 # ---- (a') history: one formula object, encoded again and again while it grows
 
-HIST_VIAS = ['to_dimacs', 'strio', 'strio-explicit', 'to_dimacs_file', 'stdout', 'file']
+HIST_VIAS = ['to_dimacs', 'strio', 'strio-explicit', 'to_dimacs_file', 'stdout', 'file', 'sink-falsy', 'sink-writeonly', 'handle']
 HIST_CLI = [['php', 3, 2], ['php', 2, 2, '--functional'], ['op', 3], ['and', 2, 1], ['or', 0, 3], ['count', 4, 2],
             ['parity', 3], ['peb', 'pyramid', 1], ['tseitin', 'first', 'complete', 3], ['true'], ['false']]
 HIST_GROUPS = ['combinations', 'cwr', 'permutations', 'words', 'mapping', 'binary', 'graph', 'bipartite', 'digraph']
@@ -510,7 +550,7 @@ def _run_history(case, labels):
     header, labelled = [], []
     last = {}                    # via -> (n, m, header entries, labelled variables) at its previous use
     tmp = path = None
-    if any(st[0] == 'enc' and st[1] == 'file' for st in case['steps']):
+    if any(st[0] == 'enc' and st[1] in ('file', 'handle') for st in case['steps']):
         tmp = _tmpdir()
         path = os.path.join(tmp, 'history.cnf')     # the same file is written again and again
     nenc = nmut = 0
@@ -536,7 +576,7 @@ def _run_history(case, labels):
                                     "to it give {} variables and {} clauses".format(
                                         what, F.number_of_variables(), len(F), n, len(clauses)))
                 _verify_output(text, n, clauses, header_on, varnames_on, fake, what,
-                               path=path if via == 'file' else None)
+                               path=path if via in ('file', 'handle') else None)
                 nenc += 1
                 prev = last.get(via)
                 if prev is not None:
@@ -616,7 +656,7 @@ def _run_history(case, labels):
 
 # ---- generators for (a)
 
-VIAS = ['to_dimacs', 'strio', 'strio', 'strio-explicit', 'to_dimacs_file', 'stdout', 'file', 'file']
+VIAS = ['to_dimacs', 'strio', 'strio', 'strio-explicit', 'to_dimacs_file', 'stdout', 'file', 'file', 'sink-falsy', 'sink-writeonly', 'handle']
 FILE_NAMES = ['formula.cnf', 'formula', 'f.dimacs', 'x.txt', 'UPPER.CNF', 'a b.cnf']
 
 
@@ -876,7 +916,7 @@ def enum_writer(tier):
         ([['block', 2, 2, 'z']], [[1, 2], [3, 4], [-1, -3]]),
     ]
     texts = [None, '', '\n', 'a\nb', 'a\rb', 'a\r\nb', 'p cnf 1 1', 'c', '\np cnf 1 1\n1 0', 'é日本', 'x\n1 2 0\n']
-    vias = ['to_dimacs', 'strio', 'strio-explicit', 'to_dimacs_file', 'stdout', 'file']
+    vias = ['to_dimacs', 'strio', 'strio-explicit', 'to_dimacs_file', 'stdout', 'file', 'sink-falsy', 'sink-writeonly', 'handle']
     for (vars_, clauses) in formulas:
         for t in texts:
             for where in ('header-value', 'header-key', 'label'):
